@@ -21,26 +21,24 @@ AW = {"T": 6, "F": 4}
 
 
 def _manualable(c):
-    if c["async"]:
-        return False
     for _r, x in genck.all_contracts(c):
-        if "_ARGS" in x["args"] or "_KWARGS" in x["args"] or x["coroFn"]:
+        if "_ARGS" in x["args"] or "_KWARGS" in x["args"] or (x["coroFn"] and not c["async"]):
             return False
     for lv in c["levels"]:
         for s in lv["snaps"]:
-            if s["coroFn"]:
+            if s["coroFn"] and not c["async"]:
                 return False
     return True
 
 
 def cases(tier, rng):
     thorough = tier == "thorough"
-    for c in genck.exhaustive_pre(genck.KINDS, [False], 3, 2, with_post=(False, True), with_snap=(False, True)):
+    for c in genck.exhaustive_pre(genck.KINDS, [False, True], 3, 2, with_post=(False, True), with_snap=(False, True)):
         c["manual"] = True
         yield "exh", c
     n = 0
     while n < (20000 if thorough else 2500):
-        c = genck.random_case(rng, ans_weights=AW, allow_async=False, max_posts=3)
+        c = genck.random_case(rng, ans_weights=AW, allow_async=True, max_posts=3)
         for item in c["capture"]:
             item[1] = genck.T(200 + item[0])
         if not _manualable(c):
@@ -89,6 +87,9 @@ def spec(case, mo, io):
         want = [k for k in want if dbc.get(k)]
         if io["hook"] != want:
             fails.append("registration hook called for %s, classes created through the metaclass: %s" % (io["hook"], want))
+        for mm in io.get("verdict_mismatches", []):
+            fails.append("class %s member %s with contract %s false: judged by hand from the introspected lists %s, the real call %s "
+                         "(introspected %s)" % (mm["class"], mm["member"], mm["false"], mm["by_hand"], mm["real"], mm["introspected"]))
         return fails
     if io.get("define", ["ok"]) != ["ok"]:
         return ["definition raised %s" % (io["define"],)]
@@ -118,6 +119,18 @@ def spec(case, mo, io):
 
 
 def classify(case, mo, io, fails):
+    if case["dom"] == "meta" and fails and all(f.startswith("class ") for f in fails):
+        # every mismatch concerns an invariant given to a strict ancestor AFTER the mismatching class was created
+        ops = case["ops"]
+        created = dict((o["k"], i) for i, o in enumerate(ops) if o["op"] == "class")
+        inv_at = dict((o["c"], (i, o["k"])) for i, o in enumerate(ops) if o["op"] == "inv")
+        ok = True
+        for mm in io.get("verdict_mismatches", []):
+            when = inv_at.get(mm["false"])
+            if when is None or when[1] == mm["class"] or when[0] < created.get(mm["class"], -1):
+                ok = False
+        if ok and io.get("verdict_mismatches"):
+            return "late-invariant-on-base-not-enforced-in-existing-subclass"
     return "unclassified"
 
 
@@ -130,6 +143,8 @@ def nontrivial_key(case, mo):
 
 
 def stats(case, mo, io, dist):
+    if case["dom"] == "meta":
+        dist["verdicts_probed"] += io.get("verdicts_probed", 0)
     dist["dom:" + case["dom"]] += 1
     if case["dom"] == "checker":
         dist["kind:" + case["kind"]] += 1
